@@ -1889,6 +1889,11 @@ func (e *SplatExpr) Value(ctx *hcl.EvalContext) (cty.Value, hcl.Diagnostics) {
 
 	// We'll compute our result type lazily if we need it. In the normal case
 	// it's inferred automatically from the value we construct.
+	//
+	// The type can depend on values used in the traversal after the splat
+	// operator (such as an index key), so any marks those values carry are
+	// collected in resultTyMarks for the results whose only content is that type.
+	var resultTyMarks cty.ValueMarks
 	resultTy := func() (cty.Type, hcl.Diagnostics) {
 		chiCtx := ctx.NewChild()
 		var diags hcl.Diagnostics
@@ -1899,6 +1904,8 @@ func (e *SplatExpr) Value(ctx *hcl.EvalContext) (cty.Value, hcl.Diagnostics) {
 			val, itemDiags := e.Each.Value(chiCtx)
 			diags = append(diags, itemDiags...)
 			e.Item.clearValue(chiCtx) // clean up our temporary value
+			val, valMarks := val.UnmarkDeep()
+			resultTyMarks = cty.NewValueMarks(resultTyMarks, valMarks)
 			return cty.List(val.Type()), diags
 		case sourceTy.IsTupleType():
 			etys := sourceTy.TupleElementTypes()
@@ -1908,6 +1915,8 @@ func (e *SplatExpr) Value(ctx *hcl.EvalContext) (cty.Value, hcl.Diagnostics) {
 				val, itemDiags := e.Each.Value(chiCtx)
 				diags = append(diags, itemDiags...)
 				e.Item.clearValue(chiCtx) // clean up our temporary value
+				val, valMarks := val.UnmarkDeep()
+				resultTyMarks = cty.NewValueMarks(resultTyMarks, valMarks)
 				resultTys = append(resultTys, val.Type())
 			}
 			return cty.Tuple(resultTys), diags
@@ -1937,7 +1946,7 @@ func (e *SplatExpr) Value(ctx *hcl.EvalContext) (cty.Value, hcl.Diagnostics) {
 				CollectionLengthUpperBound(sourceRng.LengthUpperBound()).
 				NewValue()
 		}
-		return ret.WithSameMarks(sourceVal), diags
+		return ret.WithSameMarks(sourceVal).WithMarks(resultTyMarks), diags
 	}
 
 	// Unmark the collection, and save the marks to apply to the returned
@@ -1971,7 +1980,7 @@ func (e *SplatExpr) Value(ctx *hcl.EvalContext) (cty.Value, hcl.Diagnostics) {
 		// We'll ingore the resultTy diagnostics in this case since they
 		// will just be the same errors we saw while iterating above.
 		ty, _ := resultTy()
-		return cty.UnknownVal(ty).WithMarks(marks), diags
+		return cty.UnknownVal(ty).WithMarks(marks, resultTyMarks), diags
 	}
 
 	switch {
@@ -1979,7 +1988,7 @@ func (e *SplatExpr) Value(ctx *hcl.EvalContext) (cty.Value, hcl.Diagnostics) {
 		if len(vals) == 0 {
 			ty, tyDiags := resultTy()
 			diags = append(diags, tyDiags...)
-			return cty.ListValEmpty(ty.ElementType()).WithMarks(marks), diags
+			return cty.ListValEmpty(ty.ElementType()).WithMarks(marks, resultTyMarks), diags
 		}
 		// Unfortunately it's possible for a nested splat on scalar values to
 		// generate non-homogenously-typed vals, and we discovered this bad
